@@ -3,6 +3,9 @@ nipy/algorithms/kernel_smooth.py into Gallina (Generated/KernelSmooth.v).
 
 Recognised (anything else raises - fail-closed):
 
+  __init__        signature (coordmap, shape, fwhm, scale, location, cov), numeric defaults, and each
+                  `self.<attr> = <argument>` storing the bare argument (no `or`, no conversion)
+                                                              -> src_ctor_stores_arguments, src_default_*
   _setup_kernel   vox_center = <expr over self.bshape>        -> src_centre n
                   self.shape = (<expr over bshape, kernel.shape>).astype(np.intp)
                                                               -> src_buflen n k
@@ -218,6 +221,23 @@ def translate(repo):
     meta = {"source": SRC}
     out = ["(* GENERATED from %s by harness/translate/kernelsmooth.py - do not edit *)" % SRC,
            "From Coq Require Import ZArith QArith Qround.", "Open Scope Z_scope.", ""]
+    # ---- __init__: every argument is stored as given; defaults
+    init = _func(tree, "__init__", "LinearFilter")
+    names = [a.arg for a in init.args.args]
+    if names != ["self", "coordmap", "shape", "fwhm", "scale", "location", "cov"]:
+        raise Unsupported("LinearFilter.__init__ signature: %r" % names)
+    dfl = [ast.unparse(d) for d in init.args.defaults]
+    if len(dfl) != 4 or dfl[3] != "None":
+        raise Unsupported("LinearFilter.__init__ defaults: %r" % dfl)
+    stores = {"self.coordmap": "coordmap", "self.bshape": "shape", "self.fwhm": "fwhm", "self.scale": "scale",
+              "self.location": "location", "self.cov": "cov"}
+    for tgt, src_name in stores.items():
+        v = _assign_to(init, tgt)
+        if not (isinstance(v, ast.Name) and v.id == src_name):
+            raise Unsupported("LinearFilter.__init__: %s = %s (the argument must be stored unchanged)" % (tgt, ast.unparse(v)))
+    out.append("Definition src_ctor_stores_arguments : bool := true.")
+    for nm, d in zip(("fwhm", "scale", "location"), init.args.defaults[:3]):
+        out.append("Definition src_default_%s : Q := %s." % (nm, _qlit(_num(d))))
     # ---- _setup_kernel
     sk = _func(tree, "_setup_kernel", "LinearFilter")
     env = {"self.bshape": "n", "kernel.shape": "k", "self._kernel.shape": "k", "self._kcenter": "w"}
